@@ -977,3 +977,44 @@ func (b *Builder) diffNode(n *rnode, tree map[string]any, path string) string {
 	}
 	return ""
 }
+
+// Ror2KeyOrder returns the keys of the top-level object in document order
+func Ror2KeyOrder(toks []Tok) ([]string, error) {
+	n, j, err := parseRor2(toks, 0)
+	if err != nil {
+		return nil, err
+	}
+	if j != len(toks) || n.kind != "obj" {
+		return nil, fmt.Errorf("not a single object")
+	}
+	var out []string
+	for _, k := range n.keys {
+		out = append(out, string(k))
+	}
+	return out, nil
+}
+
+// Ror2AllSorted checks that the keys of every object ascend bytewise
+func Ror2AllSorted(toks []Tok) string {
+	n, _, err := parseRor2(toks, 0)
+	if err != nil {
+		return ""
+	}
+	var walk func(n *rnode) string
+	walk = func(n *rnode) string {
+		if n.kind == "obj" {
+			for i := 1; i < len(n.keys); i++ {
+				if !(string(n.keys[i-1]) < string(n.keys[i])) {
+					return fmt.Sprintf("key %q follows %q", n.keys[i], n.keys[i-1])
+				}
+			}
+		}
+		for _, e := range n.entries {
+			if d := walk(e); d != "" {
+				return d
+			}
+		}
+		return ""
+	}
+	return walk(n)
+}
